@@ -1,7 +1,7 @@
 (* Corr/C13Run.v — correspondence evaluator for C13: runs the block/table models on the bytes and
    calls the harness observed on the implementation and returns the indexes that disagree.
    Depends on model files only. *)
-From GL Require Import Base.Bytes Base.Varint Base.Cursor Codec.Block Codec.Table Codec.TableCheck Codec.TblCrc Gen.InstTbl Corr.Cmps.
+From GL Require Import Base.Bytes Base.Varint Base.Cursor Codec.Block Codec.Table Codec.TableCheck Codec.TblCrc Codec.Snappy Gen.InstTbl Corr.Cmps.
 From Coq Require Import String.
 
 Definition hpair := (string * string)%type.
@@ -58,11 +58,12 @@ Inductive tquery :=
 | QWalk (slice : option (option string * option string)) (strict : bool)
         (ops : list kop) (o : list obs) (errnil : bool).
 
-(* the instances the model runs with: CRC-32C with LevelDB's mask; identity codec (the (K)
-   tables are written with NoCompression; a snappy block makes the model say Corrupt); a filter
-   block whose contains answers true (lawful for any generator) *)
+(* the instances the model runs with: CRC-32C with LevelDB's mask; the model of golang/snappy's
+   block decoder (Codec/Snappy.v) for blocks of type blockTypeSnappyCompression - the (K) tables
+   are written by the Go writer with NoCompression or with SnappyCompression; a filter block whose
+   contains answers true (lawful for any generator) *)
 Definition m_open (c : comparer) (file : bytes) (fname : option bytes) (verify : bool) : treader :=
-  open_table tblp tbl_crc (fun _ => None) (fun _ _ _ => true) c file fname verify.
+  open_table tblp tbl_crc snappy_decode (fun _ _ _ => true) c file fname verify.
 
 Fixpoint ti_collect (c : comparer) (rd : treader) (fuel : nat) (t : titer) (acc : list (bytes * bytes))
   : option (list (bytes * bytes)) :=
@@ -124,7 +125,13 @@ Inductive c13case :=
    name and checksum-verification setting, and the calls observed on table.Reader *)
 | KTable (cid : N) (fname : option string) (verify : bool) (file : string) (qs : list tquery)
 (* the model writer on the same input (NoCompression, no filter): byte equality is a soft statistic *)
-| KWrite (cid : N) (blockSize ri : N) (kvs : list hpair) (file : string).
+| KWrite (cid : N) (blockSize ri : N) (kvs : list hpair) (file : string)
+(* the codec contract decompress (compress x) = Some x of the writer theorems, on an instance:
+   snappy.Encode(nil, raw) = comp in the harness; the model decoder must give raw back.  Also used
+   for altered comp that snappy.Decode still accepts (raw = what it returned) *)
+| KSnappy (comp raw : string)
+(* snappy.Decode(nil, comp) failed *)
+| KSnappyErr (comp : string).
 
 Fixpoint bi_run_final (c : comparer) (it : biter) (ops : list cop) : list (option (bytes * bytes)) * biter :=
   match ops with
@@ -162,6 +169,10 @@ Definition run_case (cs : c13case) : bool :=
       let rd := m_open c f (option_map unhex fname) verify in
       forallb (run_query c rd (S (List.length f))) qs
   | KWrite _ _ _ _ _ => true
+  | KSnappy comp raw =>
+      match snappy_decode (unhex comp) with Some d => beq d (unhex raw) | None => false end
+  | KSnappyErr comp =>
+      match snappy_decode (unhex comp) with Some _ => false | None => true end
   end.
 
 (* soft statistic: model writer output = implementation file *)
